@@ -342,6 +342,23 @@ static int driver_main(int argc, char **argv)
 	g_kf_csv = kfcsv;
 	if (__sanitizer_set_death_callback)
 		__sanitizer_set_death_callback(death_cb);
+	else
+	{
+		// no sanitizer runtime in this build: a wild access is only a signal. It must still leave the case file
+		// behind, or the driver could not tell a crash in the library from a worker that was killed.
+		static char altstack[1 << 16];
+		stack_t ss;
+		ss.ss_sp = altstack;
+		ss.ss_size = sizeof altstack;
+		ss.ss_flags = 0;
+		sigaltstack(&ss, nullptr);
+		struct sigaction sa;
+		memset(&sa, 0, sizeof sa);
+		sa.sa_handler = abort_handler;
+		sa.sa_flags = SA_ONSTACK | SA_RESETHAND;
+		for (int sg : {SIGSEGV, SIGBUS, SIGILL, SIGFPE})
+			sigaction(sg, &sa, nullptr);
+	}
 	signal(SIGABRT, abort_handler);
 
 	if (!replay.empty())
